@@ -6,7 +6,7 @@ from .common import *
 
 META = {
     'title': 'MD6: Q from sqrt(6), shift tables, taps, S recurrence, control word layout, PAR/SEQ node assembly, level loop and final truncation',
-    'expected_min': 10,
+    'expected_min': 172,
     'explanation': 'Q is compared with the first 960 fractional bits of sqrt(6), rin/lin with the MD6 report; __init__, __call__, SEQ, PAR and f are '
                    'normalised and compared with a restatement of the MD6 specification (control word field widths, padding count and z flag '
                    'placement, node ids, key words in positions 15..22, taps 17/18/21/31/67, S update every 16 steps, last 16 words output, '
